@@ -105,6 +105,13 @@ package asset
 //@ loop#0 invariant len(assets) == idx0
 //@ loop#0 invariant forall j :: 0 <= j && j < idx0 ==> assets[j] == mapkey_Str(r.storage, j)
 
+// every listed asset name, with the ".csv" suffix put back, is the name of a file in the base directory
+// (strings.HasSuffix / TrimSuffix characterised by hassuffix(a,b) ==> trimsuffix(a,b) + b == a; direntry is the ghost
+// relation "directory has an entry with that name", established by os.ReadDir)
+//@ func FileSystemRepository.Assets
+//@ ensures[C10,C12] "listed-names-are-files" result1 == nil ==> (forall j :: 0 <= j && j < len(result0) ==> direntry(r.base, sconcat(result0[j], ".csv")))
+//@ loop#0 invariant forall j :: 0 <= j && j < len(assets) ==> direntry(r.base, sconcat(assets[j], ".csv"))
+
 // ---- interface Repository over the ghost abstract state view(self): asset name -> ordered snapshots (C10, C12) ------
 //@ func interface Repository.LastDate
 //@ attr refinement = asset.InMemoryRepository
